@@ -139,6 +139,18 @@ TReset == /\ IsEvent("reset")
           /\ ctr' = CtrInit /\ par' = ParInit /\ live' = 0
           /\ UNCHANGED env
 
+(* C18: the main thread's objects number 7 are copied into a page that is made
+   read-only and handed to every thread; nothing changes in the model: the
+   shared object keeps denoting the same cipher, whoever uses it and when *)
+TShare == /\ IsEvent("share")
+          /\ UNCHANGED <<env, ks, tks, mks, ctr, par, live>>
+
+(* C18, structural fact recorded from the guard-off build: the library has no
+   writable static storage (size of .data + .bss over all its objects) *)
+TStaticData == /\ IsEvent("static_data")
+               /\ Chk("bytes of writable static storage in the library", 0, Ev.bytes)
+               /\ UNCHANGED <<env, ks, tks, mks, ctr, par, live>>
+
 TQuiesce == /\ IsEvent("quiesce")
             /\ Chk("live heap blocks at quiesce", live, Ev.lv)
             /\ UNCHANGED <<env, ks, tks, mks, ctr, par, live>>
@@ -511,7 +523,7 @@ TParCryptM  == ParCrypt("par_crypt", TRUE)
 
 ----------------------------------------------------------------------------
 TraceNext ==
-    \/ TEnv \/ TLayout \/ TReset \/ TQuiesce
+    \/ TEnv \/ TLayout \/ TReset \/ TQuiesce \/ TShare \/ TStaticData
     \/ TKsSetKey \/ TKsSetTweakedKey \/ TKsSetTweak \/ TKsEnc \/ TKsDec
     \/ TMkSetKey \/ TMkSetTweak \/ TMkSwap \/ TMkCrypt \/ TMkCryptTw
     \/ TCtrInit \/ TCtrCleanup \/ TCtrSetKey \/ TCtrSetTweakedKey \/ TCtrSetTweak
